@@ -3462,6 +3462,10 @@ impl ContinuityStore {
         let last = events.last().ok_or_else(|| {
             io::Error::new(io::ErrorKind::NotFound, "continuity stream does not exist")
         })?;
+        #[cfg(rip_verif)]
+        rip_kernel::verif::point("nextseq.loaded", || {
+            serde_json::json!({"stream": continuity_id, "value": last.seq.saturating_add(1), "source": "replay"})
+        });
         Ok(last.seq.saturating_add(1))
     }
 
